@@ -533,4 +533,135 @@ theorem rollup_pending (σ : St) (h : Inv σ) (fam : Nat) (ivs : List Iv) (avail
     have : p.1 ∈ filesOf σ.pending fam p.2 := (mem_filesOf _ _ _ _).2 ⟨hp.1, hf⟩
     exact hp.2 (j5 p.2 hi ha p.1 this)
 
+
+/-! ### a failed attempt: nothing committed for the failed interval, its rollup entries are kept -/
+
+theorem tPhase_ds_sub (pending0 : List (Key × Iv)) (fam : Nat) (avail : Iv → Bool) (ivs : List Iv) :
+    ∀ σ : St, ∀ p ∈ (tPhase pending0 fam avail σ ivs).2,
+      p.2 ∈ ivs ∧ avail p.2 = true ∧ p.1 ∈ filesOf pending0 fam p.2 := by
+  induction ivs with
+  | nil => intro σ p hp; simp [tPhase] at hp
+  | cons i rest ih =>
+    intro σ p hp
+    by_cases ha : avail i = true
+    · have hcase : ∃ σ', (tPhase pending0 fam avail σ (i :: rest)).2 =
+          (filesOf pending0 fam i).map (fun k => (k, i)) ++ (tPhase pending0 fam avail σ' rest).2 := by
+        cases hm : mergeRec σ (filesOf pending0 fam i) i with
+        | none => exact ⟨σ, by rw [tPhase]; simp [ha, hm]⟩
+        | some r => exact ⟨σ.apply r, by rw [tPhase]; simp [ha, hm]⟩
+      obtain ⟨σ', e⟩ := hcase
+      rw [e] at hp
+      rcases List.mem_append.1 hp with hp | hp
+      · obtain ⟨k, hk, rfl⟩ := List.mem_map.1 hp
+        exact ⟨List.mem_cons_self, ha, hk⟩
+      · obtain ⟨h1, h2, h3⟩ := ih σ' p hp
+        exact ⟨List.mem_cons_of_mem _ h1, h2, h3⟩
+    · have e : (tPhase pending0 fam avail σ (i :: rest)).2 = (tPhase pending0 fam avail σ rest).2 := by
+        rw [tPhase]; simp [ha]
+      rw [e] at hp
+      obtain ⟨h1, h2, h3⟩ := ih σ p hp
+      exact ⟨List.mem_cons_of_mem _ h1, h2, h3⟩
+
+/-- the rollup entries of every interval that failed (or was not processed), and of every other
+family, survive the run -/
+theorem rollup_keeps_markers (σ : St) (fam : Nat) (ivs : List Iv) (avail : Iv → Bool) (dvs : List Iv)
+    (p : Key × Iv) (hp : p ∈ σ.pending)
+    (hkeep : p.1.1 ≠ fam ∨ p.2 ∉ ivs ∨ avail p.2 = false) :
+    p ∈ (σ.applyAll (rollupRecs σ fam ivs avail dvs)).pending := by
+  have hk := tPhase_keeps σ.pending fam avail ivs σ
+  have hsub := tPhase_ds_sub σ.pending fam avail ivs σ
+  unfold rollupRecs
+  generalize hts : tPhase σ.pending fam avail σ ivs = tp at hk hsub
+  obtain ⟨ts, ds⟩ := tp
+  simp only at hk hsub ⊢
+  have hd := dPhase_keeps σ.pending fam (fun i => avail i && decide (i ∈ ivs)) dvs
+  have hnot : p ∉ ds := by
+    intro hin
+    obtain ⟨h1, h2, h3⟩ := hsub p hin
+    have hf := ((mem_filesOf _ _ _ _).1 h3).2
+    rcases hkeep with h | h | h
+    · exact h hf
+    · exact h h1
+    · rw [h2] at h; exact absurd h (by simp)
+  by_cases hds : ds = []
+  · subst hds
+    simp only [if_true, List.append_nil]
+    rw [applyAll_pending σ _ (by
+      intro r hr
+      rcases List.mem_append.1 hr with hr | hr
+      · exact hk r hr
+      · exact hd r hr)]
+    exact hp
+  · simp only [hds, if_false]
+    have e : σ.applyAll (ts ++ [Rec.delRollup ds] ++ dPhase σ.pending fam (fun i => avail i && decide (i ∈ ivs)) dvs)
+        = ((σ.applyAll ts).apply (.delRollup ds)).applyAll (dPhase σ.pending fam (fun i => avail i && decide (i ∈ ivs)) dvs) := by
+      simp [St.applyAll, List.foldl_append]
+    rw [e, applyAll_pending _ _ hd]
+    simp only [St.apply, List.mem_filter, decide_eq_true_eq]
+    rw [applyAll_pending σ ts hk]
+    exact ⟨hp, hnot⟩
+
+/-- an attempt in which every interval fails commits no record at all -/
+theorem rollupRecs_all_failed (σ : St) (fam : Nat) (ivs dvs : List Iv) :
+    rollupRecs σ fam ivs (fun _ => false) dvs = [] := by
+  have ht : ∀ (σ' : St) (l : List Iv), tPhase σ.pending fam (fun _ => false) σ' l = ([], []) := by
+    intro σ' l
+    induction l with
+    | nil => simp [tPhase]
+    | cons i rest ih => rw [tPhase]; simpa using ih
+  have hdp : ∀ l : List Iv, dPhase σ.pending fam (fun _ => false) l = [] := by
+    intro l
+    induction l with
+    | nil => simp [dPhase]
+    | cons i rest ih => rw [dPhase]; simpa using ih
+  have hfun : (fun i => false && decide (i ∈ ivs)) = (fun _ : Iv => false) := by funext i; simp
+  unfold rollupRecs
+  rw [ht σ ivs, hfun]
+  simp [hdp dvs]
+
+/-! ### the CAS guard -/
+
+theorem guard_cas_inv (l : List GStep) (hl : ∀ s ∈ l, (∃ t, s = .cas t) ∨ (∃ t, s = .finish t)) :
+    ∀ g : JobGuard, g.running.length ≤ 1 → (g.running ≠ [] → g.flag = true) →
+      (g.run l).running.length ≤ 1 ∧ ((g.run l).running ≠ [] → (g.run l).flag = true) := by
+  induction l with
+  | nil => intro g h1 h2; exact ⟨h1, h2⟩
+  | cons s rest ih =>
+    intro g h1 h2
+    have hs := hl s (List.mem_cons_self)
+    have hr : ∀ s ∈ rest, (∃ t, s = .cas t) ∨ (∃ t, s = .finish t) := fun x hx => hl x (List.mem_cons_of_mem _ hx)
+    simp only [JobGuard.run, List.foldl_cons]
+    apply ih hr
+    · rcases hs with ⟨t, rfl⟩ | ⟨t, rfl⟩
+      · simp only [JobGuard.step]
+        split
+        · exact h1
+        · rename_i hf
+          have : g.running = [] := by
+            by_contra hne
+            exact hf (h2 hne)
+          simp [this]
+      · simp only [JobGuard.step]
+        split
+        · exact Nat.le_trans (List.length_filter_le _ _) h1
+        · exact h1
+    · rcases hs with ⟨t, rfl⟩ | ⟨t, rfl⟩
+      · simp only [JobGuard.step]
+        split
+        · exact h2
+        · intro _; rfl
+      · simp only [JobGuard.step]
+        split
+        · rename_i hin
+          intro hne
+          exfalso
+          apply hne
+          rcases hg : g.running with _ | ⟨a, _ | ⟨b, tl⟩⟩
+          · rfl
+          · rw [hg] at hin
+            have : t = a := by simpa using hin
+            simp [this]
+          · rw [hg] at h1; simp at h1
+        · exact h2
+
 end LinVerif.Lemmas.C04
